@@ -8,32 +8,32 @@ ALL = ["C%02d" % i for i in range(1, 21)]
 CHECKS = {
     "C01": ("exploration",
             "bounded exhaustive enumeration of (rule set x configuration x request) through the real request pipeline with a recording mock upstream, against a composition reference model; plus enumeration of all admin-operation histories up to a depth on the full assembly",
-            "Every set of <=2 (thorough <=3) placed rules out of 34 rule texts x 3 placements, and 25 small sets x 5 blocking modes x 4 protection states x filtering on/off x 4 client kinds x 9 blocked-service settings (global and per-client lists, paused, not paused or empty, alone and together); each with 7-9 names x 5 qtypes x 2 client addresses run through HandleBefore+handleDNSRequest of a real server (real filtering engine, real client storage, virtual clock). Oracle: blocked => mode's synthetic response and empty upstream log; otherwise exactly one upstream call and the upstream records and question intact. Part 2 (second binary, the full assembly of C05 through the real admin handlers): every history of <=4 (thorough 6) list life-cycle operations and of <=4 (thorough 5) protection operations (timed pause, off, on, on/off through dns_config, clock advance); after each step a name of the block list is blocked exactly when its list is present and enabled / protection is on.",
+            "Every set of <=2 (thorough <=3) placed rules out of 34 rule texts x 3 placements, and 25 small sets x 5 blocking modes x 4 protection states x filtering on/off x 4 client kinds x 9 blocked-service settings (global and per-client lists, paused, not paused or empty, alone and together); each with 7-9 names x 5 qtypes x 2 client addresses run through HandleBefore+handleDNSRequest of a real server (real filtering engine, real client storage, virtual clock). Oracle: blocked => mode's synthetic response and empty upstream log; otherwise exactly one upstream call and the upstream records and question intact. Part 2 (second binary, the full assembly of C05 through the real admin handlers): every history of <=4 (thorough 6) list life-cycle operations on the block list and on an allow list that names the probe, and of <=4 (thorough 5) protection operations (timed pause, off, on, on/off through dns_config, clock advance); after each step a name of the block list is blocked exactly when its list is present and enabled (and the allow list naming it absent or disabled) / protection is on.",
             "single-rule matching delegated to urlfilter's Match; composition, gates and response table are modelled independently; $dnsrewrite, safe browsing/parental/safe search excluded.",
             "DESIGN.md §4 C01", "E1-stateless"),
     "C02": ("exploration",
             "bounded exhaustive enumeration of (upstream answer section x rule set x configuration x query type) through the real pipeline with a scripted upstream, against a first-blocked-record reference",
-            "All answer sections of length <=3 (thorough <=4) over 16 record kinds with CNAME owner chaining, the offending record at every position, x 10 rule sets (names, IPv4/IPv6 literals, exceptions, $important, allow-listed/excepted queried name, hosts-style, $dnstype) x 5 modes + 5 flag variants + 1 variant with an NXDOMAIN upstream answer carrying the section + 2 variants with the proxy's answer cache on (each question asked twice, the cached response judged) x 5 query types; blocked => the mode's response for the query's type without upstream data and a log entry carrying the original answer; else the upstream answer unchanged.",
+            "All answer sections of length <=3 (thorough <=4) over 17 record kinds (incl. an AAAA record holding an IPv4-mapped address) with CNAME owner chaining, the offending record at every position, x 10 rule sets (names, IPv4/IPv6 literals, exceptions, $important, allow-listed/excepted queried name, hosts-style, $dnstype) x 5 modes + 5 flag variants + 1 variant with an NXDOMAIN upstream answer carrying the section + 2 variants with the proxy's answer cache on (each question asked twice, the cached response judged) x 5 query types; blocked => the mode's response for the query's type without upstream data and a log entry carrying the original answer; else the upstream answer unchanged.",
             "single-rule matching delegated to urlfilter; with AAAA disabled and response filtering applicable HTTPS records are accepted with or without ipv6hint (where it is not applicable the answer must be identical); cached answers are compared without TTL.",
             "DESIGN.md §4 C02", "E1-stateless"),
     "C03": ("exploration",
             "bounded exhaustive enumeration of (access lists x protocol x client address x ClientID x name) through the real pre-request hook and pipeline, against a set-theoretic access model; loopback conformance of the drop contract",
-            "Every disjoint allowed/disallowed pair of subsets (size <=2, thorough <=3) of 12 list items (incl. an upper-case ClientID and a link-local address without zone) x 6 protocols x 9 addresses (in/out of each CIDR, zoned, 4-in-6) x 4 ClientID labels, the lists being the start-up configuration, set through POST /control/access/set, or set that way and followed by Server.Reconfigure; 8 blocked-host pattern sets x names x qtypes x protocols. Excluded => dropped (UDP/DNSCrypt) or REFUSED echoing the request, with no upstream call, log entry or statistics update; admitted => served. DoH requests through the real HTTP entry point: 5 list configurations x 4 trusted-proxy sets x 5 peers x proxy headers (4 kinds x 3 addresses): the client is the peer, or the header address iff the peer is a trusted proxy. The plain-error=silence contract of dnsproxy is validated by real UDP/TCP exchanges on 127.0.0.1.",
+            "Every disjoint allowed/disallowed pair of subsets (size <=2, thorough <=3) of 12 list items (incl. an upper-case ClientID and a link-local address without zone) x 6 protocols x 9 addresses (in/out of each CIDR, zoned, 4-in-6) x 4 ClientID labels, the lists being the start-up configuration, set through POST /control/access/set, or set that way and followed by Server.Reconfigure; 8 blocked-host pattern sets x names x qtypes (and class CH) x protocols. Excluded => dropped (UDP/DNSCrypt) or REFUSED echoing the request, with no upstream call, log entry or statistics update; admitted => served. DoH requests through the real HTTP entry point: 5 list configurations x 4 trusted-proxy sets x 5 peers x proxy headers (4 kinds x 3 addresses): the client is the peer, or the header address iff the peer is a trusted proxy. The plain-error=silence contract of dnsproxy is validated by real UDP/TCP exchanges on 127.0.0.1.",
             "blocked-host matching delegated to urlfilter; 4-in-6 addresses whose two readings differ are not judged.",
             "DESIGN.md §4 C03", "E1-stateless"),
     "C04": ("model_checking",
             "explicit-state BFS over operation histories executed on the real client.Storage, implementation-dump dedup, list-of-clients reference model checked on every transition",
-            "All histories of add/update(rename, change ids, switch own settings)/remove/DHCP-flip up to depth 3 (quick: 2 names, 8 colliding identifiers incl. nested/unmasked/offset CIDRs, 2 IPs, MAC, ClientID) or 4 (thorough: 3 names, 16 identifiers), plus a pass over zoned link-local IPv6 identifiers; after every transition accept/reject, unchanged-on-reject, index-map consistency and every lookup path are compared with the reference.",
+            "All histories of add/update(rename, change ids, switch own settings)/remove/DHCP-flip up to depth 3 (quick: 2 names, 8 colliding identifiers incl. nested/unmasked/offset CIDRs, 2 IPs, MAC, ClientID) or 4 (thorough: 3 names, 16 identifiers), plus a pass over zoned link-local IPv6 identifiers and a pass over identifier lists that name one identifier twice; every operation with own settings carries its own safe-search filter object; after every transition accept/reject, unchanged-on-reject, index-map consistency and every lookup path (incl. which safe-search filter a request is handed) are compared with the reference.",
             "between equally specific stored prefixes either owner is accepted; identifiers outside the pool and deeper histories are not covered; runs in-process with 16 worker goroutines (Storage instances are independent).",
             "DESIGN.md §4 C04", "E1-BFS"),
     "C05": ("model_checking",
             "stateless preemption-bounded exhaustive exploration of interleavings under a cooperative scheduler hooked into sync/atomic (E2), plus a free-running race-detector pass over the same exhaustively enumerated scenario matrix (E4)",
-            "Scenario matrix: 4 request bodies x 33 admin/background bodies (with scheduling points after lock releases), every background body x every admin body, three-party scenarios around the list refresh (thorough: + request x background x admin triples), a deterministic probe that what the client storage hands out is not changed by later updates, and a phase that queues several set_rules calls behind a held engine-rebuild worker and demands the last one's engine (the sequential history phases on the same assembly belong to C01), on a full assembly wired as in package home (server, filter with file lists, client storage, query log, statistics on bbolt). E2 owns every Mutex/RWMutex(writer preference)/WaitGroup/Once/atomic operation of the rewritten AGH packages and bbolt and explores all schedules with <=1 (quick) / <=2 (thorough) preemptions: no panic, deadlock or livelock, well-formed response, operations succeed. E4 runs every scenario in both start orders with staggered starts under -race.",
+            "Scenario matrix: 4 request bodies x 33 admin/background bodies (with scheduling points after lock releases), every background body x every admin body, three-party scenarios around the list refresh, read x write admin pairs on the query log and the statistics (thorough: + request x background x admin triples), a deterministic probe that what the client storage hands out is not changed by later updates, and a phase that queues several set_rules calls behind a held engine-rebuild worker and demands the last one's engine (the sequential history phases on the same assembly belong to C01), on a full assembly wired as in package home (server, filter with file lists, client storage, query log, statistics on bbolt). E2 owns every Mutex/RWMutex(writer preference)/WaitGroup/Once/atomic operation of the rewritten AGH packages and bbolt and explores all schedules with <=1 (quick) / <=2 (thorough) preemptions: no panic, deadlock or livelock, well-formed response, operations succeed. E4 runs every scenario in both start orders with staggered starts under -race.",
             "data races are decided by the race detector's happens-before analysis of observed free runs (order-dependent), not by schedule enumeration; goroutines the code spawns itself are replaced by explicit bodies; DHCP lease operations and restart-type DNS settings are not in the matrix.",
             "DESIGN.md §2.3, §2.4, §4 C05", "E2+E4"),
     "C06": ("exploration",
             "bounded exhaustive enumeration of ordered rewrite tables x queries through the real filter (and the real server for the wire level) against an independent resolver written from AGHTechDoc, with all-permutations and watchdog termination oracles",
-            "All ordered tables of <=3 entries over 81 (pattern, answer) pairs plus <=4 over a 35-entry sub-alphabet (thorough: <=4 / <=5) x 11 names (incl. two that end like a wildcard's base without the label boundary) x A/AAAA/TXT through filtering.New + CheckHost; every permutation of a table must resolve identically (except documented ties); each call under a 5 s watchdog. Wire level (each table built from the configuration in two orders and once through PUT /control/rewrite/update): real dnsforward server with a recording upstream answering with records, NODATA and NXDOMAIN: CNAME first, original question restored, upstream asked only for the canonical name, matched-without-value => empty NOERROR and no upstream call.",
+            "All ordered tables of <=3 entries over 81 (pattern, answer) pairs plus <=3 over a 24-entry sub-alphabet with an IPv4-mapped IPv6 value and <=4 over a 35-entry sub-alphabet (thorough: <=4 / <=5) x 11 names (incl. two that end like a wildcard's base without the label boundary) x A/AAAA/TXT through filtering.New + CheckHost; every permutation of a table must resolve identically (except documented ties); each call under a 5 s watchdog. Wire level (each table built from the configuration in two orders and once through PUT /control/rewrite/update): real dnsforward server with a recording upstream answering with records, NODATA and NXDOMAIN: CNAME first, original question restored, upstream asked only for the canonical name, matched-without-value => empty NOERROR and no upstream call.",
             "several CNAME targets or several values for one and the same wildcard pattern are ties (either may win, order dependence not flagged); exact-over-wildcard shadowing among address entries accepted per kind or per family.",
             "DESIGN.md §4 C06", "E1-stateless"),
     "C07": ("model_checking",
@@ -43,12 +43,12 @@ CHECKS = {
             "DESIGN.md §4 C07", "E1-BFS"),
     "C08": ("exploration",
             "bounded exhaustive enumeration of (ignore lists x anonymisation x client kind x flags x request) through the real pipeline with the real query log and statistics wired as in package home; every storage and reporting surface read after each request",
-            "13 ignore-list pairs x anonymisation off/on/switched on by API x 5 persistent-client kinds x ignore flags x ANY-refusal, each x 43 requests (name spellings, IPv4/IPv6/4-in-6 sources, with/without ClientID); after every request the memory buffer (API), the flushed file, the API over the file and /control/stats are inspected and cleared. Restart scenarios and a memory-buffer scenario (ignore list changed through the API, client flag set later) check that the API hides entries recorded earlier whose name/client is ignored now, including several ClientID clients behind one address.",
+            "13 ignore-list pairs x anonymisation off/on/switched on by API x 6 persistent-client kinds (IP, CIDR, MAC, ClientID, zoned link-local IPv6) x ignore flags x ANY-refusal, each x 51 requests (name spellings, IPv4/IPv6/4-in-6/zoned sources, with/without ClientID); after every request the memory buffer (API), the flushed file, the API over the file and /control/stats are inspected and cleared. Restart scenarios and a memory-buffer scenario (ignore list changed through the API, client flag set later) check that the API hides entries recorded earlier whose name/client is ignored now, including several ClientID clients behind one address.",
             "ignore-rule matching delegated to urlfilter; a 4-in-6 source is the same client as its IPv4 form; client-flag hiding is judged with anonymisation off (anonymised entries cannot be attributed).",
             "DESIGN.md §4 C08", "E1-stateless"),
     "C09": ("model_checking",
             "explicit-state BFS over update/advance/flush/restart/limit/clear/read histories on the real StatsCtx (bbolt) against an hour->counters reference, plus preemption-bounded exhaustive schedule exploration of Update || flush || API read || reset under the cooperative scheduler",
-            "Histories of depth 5 (quick) / 7 (thorough) over 21 operations (5 result categories, 2 clients, 2 domains, hour advances by 1, 2, L-1, L, L+1, flush, clean restart, retention limits 1/2/3/24/192 h through both handlers, switching statistics off, clear); after every transition GET /control/stats is compared with the reference (totals, hourly series per hour, daily series <= totals, window). Schedules: 12 thread sets (update, other update, hour rollover + flush, API read, reset, clean shutdown followed by a reopen) x {0,2} earlier updates, all interleavings at lock/atomic operations and lock releases of stats and bbolt with <=1 (quick) / <=2 (thorough) preemptions; every response internally consistent, never below the count completed before the threads started, and every update counted exactly once after quiescence.",
+            "Histories of depth 5 (quick) / 7 (thorough) over 21 operations (5 result categories, 2 clients, 2 domains, hour advances by 1, 2, L-1, L, L+1, flush, clean restart, retention limits 1/2/3/24/192 h through both handlers, switching statistics off, clear); after every transition GET /control/stats is compared with the reference (totals, hourly series per hour, daily series <= totals, window). Schedules: 12 thread sets (update, other update, hour rollover + flush, API read, reset, clean shutdown followed by a reopen) x {0,2} earlier updates, all interleavings at lock/atomic operations and lock releases of stats and bbolt with <=1 (quick) / <=2 (thorough) preemptions; every response internally consistent, never below the count completed before the threads started, every update counted exactly once after quiescence, and no iteration of the flusher ends its loop while the statistics are open.",
             "hours that lay outside the window at some moment may legitimately have been deleted (0 or full count accepted); a read refused with HTTP 500 while a reset replaces the database is accepted; top_* lists are not compared.",
             "DESIGN.md §4 C09", "E1-BFS+E2"),
     "C10": ("model_checking",
@@ -63,7 +63,7 @@ CHECKS = {
             "DESIGN.md §4 C11", "E1-stateless"),
     "C12": ("model_checking",
             "explicit-state BFS over timed login/request/logout/clock-advance/restart histories on the real auth handlers under a virtual clock against a throttle automaton and two-sided session bounds, plus preemption-bounded schedule exploration of request || logout || clock tick followed by a restart",
-            "Three BFS passes plus two stateless throttling enumerations (attempts inside the last second of a block period; 20-2500 other addresses failing while one address is blocked): throttle only (10 operations, all 6 (maxAttempts, blockDur) configurations, depth 8 quick / 11 thorough), sessions (12 operations incl. a request with another spelling of the token, TTL 1 h and 3 d, depth 6 / 9), cross (17 operations, depth 4 / 5); clock steps straddle every boundary by +-1 s; two addresses that are trusted proxies and send spoofed proxy headers; while blocked every login is 429 with Retry-After and creates no session; tokens authenticate before created+TTL and never after logout, expiry or having been seen expired, also across restart (session file). Schedules: request, logout and a midnight-crossing clock tick in all interleavings (<=1-2 preemptions, release points), then restart: a logged-out token never authenticates.",
+            "Three BFS passes plus two stateless throttling enumerations (attempts inside the last second of a block period; 20-2500 other addresses failing while one address is blocked): throttle only (10 operations, all 6 (maxAttempts, blockDur) configurations, depth 8 quick / 11 thorough), sessions (13 operations incl. a request with another spelling of the token and a logout carrying a second unknown cookie, TTL 1 h and 3 d, depth 6 / 9), cross (17 operations, depth 4 / 5); clock steps straddle every boundary by +-1 s; two addresses that are trusted proxies and send spoofed proxy headers; while blocked every login is 429 with Retry-After and creates no session; tokens authenticate before created+TTL and never after logout, expiry or having been seen expired, also across restart (session file); an unexpired session is in memory and in the file with one expiry. Schedules: request, logout and a midnight-crossing clock tick in all interleavings (<=1-2 preemptions, release points), then restart: a logged-out token never authenticates.",
             "the throttle table is emptied by a restart (the statement does not cover throttling across restarts); Retry-After only checked for presence and range; exact-boundary instants are not judged.",
             "DESIGN.md §4 C12", "E1-BFS+E2"),
     "C13": ("exploration",
@@ -73,37 +73,37 @@ CHECKS = {
             "DESIGN.md §4 C13", "E1-stateless"),
     "C19": ("model_checking",
             "explicit-state BFS over check/clock-advance (and database-switch) histories on the real hashprefix.Checker with a scripted lookup service, plus exhaustive enumeration of host names for the privacy clause; reference verdict and fresh-Checker differential oracle",
-            "25 service databases (colliding prefixes in both orders, parent/child, over-long/short/non-hex TXT strings) x 2 answer packings x 3 cache sizes, plus scenarios with database switches (two of them starting after [parent checked; parent listed]), histories of depth 5 (quick) / 6 (thorough) of checks and clock steps straddling the cache time; every check compared with the reference verdict and with a fresh Checker at the same instant; every question sent checked for the hash-prefix shape. Stateless: ~17k host names (1..8 labels x 11 suffix kinds x case) through Check/CheckHost.",
-            "names under private suffixes/unmanaged TLDs may expose prefixes of their last-four-label parents (intended behaviour per the repository's own tests); upstream errors are not injected.",
+            "25 service databases (colliding prefixes in both orders, parent/child, over-long/short/non-hex TXT strings) x 2 answer packings x 4 cache sizes (unlimited, 100, 64 and 30 bytes), plus scenarios with database switches (two of them starting after [parent checked; parent listed]), histories of depth 5 (quick) / 6 (thorough) of checks, clock steps straddling the cache time and 'the next exchange with the service fails'; every check compared with the reference verdict and with a fresh Checker at the same instant; every question sent checked for the hash-prefix shape. Stateless: ~17k host names (1..8 labels x 11 suffix kinds x case) through Check/CheckHost.",
+            "names under private suffixes/unmanaged TLDs may expose prefixes of their last-four-label parents (intended behaviour per the repository's own tests); a failed exchange may fail the check; what it leaves in the cache is judged by the following checks.",
             "DESIGN.md §4 C19", "E1-BFS"),
     "C20": ("exploration",
             "bounded exhaustive enumeration of file layouts on a scaled-constant build and a byte-by-byte boundary sweep on the real-constant build, reversed-lines and seek-classification oracles",
-            "Scaled build (maxEntrySize 64 / buffer 6400 substituted in a freshly copied qlogfile.go): every file of 0..5 (quick) / 0..7 (thorough) tail lines over 4 lengths x 5 filler prefixes x 3 gap patterns; every present and absent seek target on a reused reader object; rotated+current pairs at every split; every history of <=3 operations (rewind, read 1/3, seek to first/last entry of each file, absent seeks) on one reader against a cursor reference. Real build: 1.6 MB / 3.2 MB files with the tail length swept byte by byte so buffer boundaries visit every offset in a line.",
+            "Scaled build (maxEntrySize 64 / buffer 6400 substituted in a freshly copied qlogfile.go): every file of 0..5 (quick) / 0..7 (thorough) tail lines over 4 lengths x 5 filler prefixes x 3 gap patterns; every present and absent seek target on a reused reader object; rotated+current pairs at every split; every history of <=3 operations (rewind, read 1/3, seek to first/last entry of each file, absent seeks) on one reader against a cursor reference. Real build: 1.6 MB / 3.2 MB files with the tail length swept byte by byte so buffer boundaries visit every offset in a line, and one file of 2.3 million records (265 stored and 3 absent targets).",
             "the scaled build differs from the shipped source only in one constant; real-constant coverage is the boundary sweep, not all files; lines+newline < maxEntrySize.",
             "DESIGN.md §4 C20", "E1-stateless"),
     "C14": ("fault_enumeration",
             "exhaustive enumeration of crash points (plus a free-running race-detector pass over two concurrent configuration saves): a real SIGKILL (strace fault injection) at every file-system call of every save, plus explicit-state exploration of a power-loss model over the recorded syscall log (prefix x surviving unsynced data x lost trailing renames x torn writes), the model validated against every real kill",
-            "112 scenarios (quick): real config.write, the loader's schema-upgrade rewrite, dhcpd dbStore, filter refresh (successful and failing mid-download), set_url (download succeeds / breaks), and for each of the three writers saves that fail because no file may grow beyond half / all but one byte of its size (RLIMIT_FSIZE) x sizes {min, 4095, 4096, 4097, 1 MiB; thorough + 32 MiB} x destination present/absent x temp-file placement, two successive saves each. Every kill point leaves the destination byte-equal to the complete old or new version; every modelled crash state (prefix, surviving data operations since the last fsync, lost trailing namespace operations, write torn at 6 offsets) satisfies the same; a failed save (broken download, write fault) leaves the old version at every such point and afterwards.",
+            "116 scenarios (quick): real config.write, the loader's schema-upgrade rewrite, dhcpd dbStore, filter refresh (successful and failing mid-download), set_url (download succeeds / breaks), a refresh whose new version holds an over-long line, and for each of the three writers saves that fail because no file may grow beyond half / all but one byte of its size (RLIMIT_FSIZE) x sizes {min, 4095, 4096, 4097, 1 MiB; thorough + 32 MiB} x destination present/absent x temp-file placement, two successive saves each. Every kill point leaves the destination byte-equal to the complete old or new version; every modelled crash state (prefix, surviving data operations since the last fsync, lost trailing namespace operations, write torn at 6 offsets) satisfies the same; a failed save (broken download, write fault) leaves the old version at every such point and afterwards.",
             "real kills land on syscall boundaries; torn writes and lost unsynced data exist only in the log model, which assumes rename atomicity and ordered metadata; atomicity (old or new), not durability, is demanded.",
             "DESIGN.md §2.5, §4 C14", "E3"),
     "C15": ("fault_enumeration",
             "explicit-state BFS over sequences of scripted list-server answers (faults at every body-offset class) on the real DNSFilter refresh paths, plus exhaustive enumeration of list texts through the real parser with a fixed-point oracle",
-            "Sequences of depth 3 (quick) / 4 (thorough) of forced block/allow refreshes x 16 answers (200 L1/L2/same/empty, connection error, 404, 500, 204, 206, body cut before the first byte / mid-line / at a line boundary / after the last line, HTML, NUL on line 1 / line N), scheduled refreshes 25 h / 1 h later x answer pairs, local-file changes and restart, on one HTTP block list, one local-file block list and one HTTP allow list; after every step file bytes, inode, rules_count and CheckHost verdicts of 13 probes are compared with the model and the stored file is re-parsed. Parser: all texts of <=4 (thorough <=6) lines over 14 line kinds x 3 line endings.",
+            "Sequences of depth 3 (quick) / 4 (thorough) of forced block/allow refreshes x 16 answers (200 L1/L2/same/empty, connection error, 404, 500, 204, 206, body cut before the first byte / mid-line / at a line boundary / after the last line, HTML, NUL on line 1 / line N), scheduled refreshes 25 h / 1 h later x answer pairs, local-file changes and restart, on one HTTP block list, one local-file block list and one HTTP allow list; after every step file bytes, inode, rules_count and CheckHost verdicts of 13 probes are compared with the model and the stored file is re-parsed. A list of more than 64 MiB is refreshed and re-fetched once outside the search. Parser: all texts of <=4 (thorough <=6) lines over 14 line kinds x 3 line endings.",
             "a successful refresh is expected to bring its rules into force (the statement says so only implicitly); unreadable local file is modelled as a directory (harness runs as root).",
             "DESIGN.md §4 C15", "E3+E1"),
     "C16": ("exploration",
             "bounded exhaustive enumeration of (protocol x configured name x strict x client server name x DoH path x Host/TLS source) against a grammar-level reference, plus enumeration of all request/reconfigure histories up to a depth on the real server",
-            "Every combination of 6 protocols, 3 configured server names, strict on/off, ~95 generated client server names and, for DoH, 53 paths with the name taken from TLS state or Host header; safety (ClientID only from a well-formed source, lower-cased; plain/DNSCrypt never), failure on invalid labels, strict rejection and liveness of the well-formed shapes; pre-request hook turns errors into SERVFAIL. Histories: every sequence of <=5 (thorough: also <=6 over the smaller alphabet) requests over the six protocols (with/without ClientID, two DNS message IDs) and Server.Reconfigure on a fresh real server, contexts numbered by the current proxy as its listeners do; each request must be processed and logged under the ClientID it carries itself.",
+            "Every combination of 6 protocols, 3 configured server names, strict on/off, ~110 generated client server names (incl. siblings ending like <id>.<name> without the label boundary) and, for DoH, 53 paths with the name taken from TLS state or Host header; safety (ClientID only from a well-formed source, lower-cased; plain/DNSCrypt never), failure on invalid labels, strict rejection and liveness of the well-formed shapes; pre-request hook turns errors into SERVFAIL. Histories: every sequence of <=5 (thorough: also <=6 over the smaller alphabet) requests over the six protocols (with/without ClientID, two DNS message IDs) and Server.Reconfigure on a fresh real server, contexts numbered by the current proxy as its listeners do; each request must be processed and logged under the ClientID it carries itself; one server life of 2600 requests (more ClientIDs than the hand-over cache holds).",
             "path.Clean and RFC 1123 label syntax are the reference; domain-part case differences and empty name under strict are accepted either way.",
             "DESIGN.md §4 C16", "E1-stateless"),
     "C17": ("exploration",
             "bounded exhaustive enumeration of (pattern list x location spelling x entry point) on the real handlers and refresh paths with canary files",
-            "12 pattern lists x 13 targets x dot-dot routes x <=1 (quick) / <=2 (thorough) spelling departures (segment insertions, percent-encoding, suffixes, relative and scheme prefixes) x 8 entry points (add, add after another list of the same directory was added, set-url, two-step set-url, forced and periodic refresh with the URL already configured, each of the two also with contents stored from an earlier fetch) x block/allow registry; canary content may show up (rules count, stored file, response body, probe verdict) only if the location is absolute and filepath.Match(p, filepath.Clean(loc)) holds for a configured pattern.",
+            "13 pattern lists x 13 targets x dot-dot routes x <=1 (quick) / <=2 (thorough) spelling departures (segment insertions, percent-encoding, suffixes, relative and scheme prefixes) x 8 entry points (add, add after another list of the same directory was added, set-url, two-step set-url, forced and periodic refresh with the URL already configured, each of the two also with contents stored from an earlier fetch) x block/allow registry; canary content may show up (rules count, stored file, response body, probe verdict) only if the location is absolute and filepath.Match(p, filepath.Clean(loc)) holds for a configured pattern.",
             "filepath.Clean/Match are the reference; symlink-free tree; only the 'only if' direction is demanded.",
             "DESIGN.md §4 C17", "E1-stateless"),
     "C18": ("exploration",
-            "bounded exhaustive enumeration of (zone table x transition-day minute x range x weekday mask) against a wall-clock reference",
-            "Every distinct zone transition table on the host, every minute (and +-1ns) of the local days before/of/after every DST transition in the window, 9 day ranges x 15 weekday masks, compared with a wall-clock reference; all serialised start/end combinations of a 12x12 grid (incl. fractions of a millisecond) in JSON and YAML for accept/reject, round trip and agreement. Exhaustive within those bounds.",
+            "bounded exhaustive enumeration of (zone table x transition-day minute x range x weekday mask) against a wall-clock reference, plus enumeration of all administration histories up to a depth on the real filter",
+            "Every distinct zone transition table on the host, every minute (and +-1ns) of the local days before/of/after every DST transition in the window, 9 day ranges x 15 weekday masks, compared with a wall-clock reference; all serialised start/end combinations of a 12x12 grid (incl. fractions of a millisecond) in JSON and YAML for accept/reject, round trip and agreement, each YAML document decoded into an EmptyWeekly() value after which a new EmptyWeekly() must cover nothing; every history of <=4 (thorough <=6) calls of PUT blocked_services/update (two schedules or none) and the deprecated POST blocked_services/set on a real filter under the virtual clock: schedule and services as reported, as saved and as applied to requests at three instants. Exhaustive within those bounds.",
             "Go's time package + host tzdata define wall-clock time; instants outside the window and ranges outside the 9 shapes are not covered.",
             "DESIGN.md §4 C18", "E1-stateless"),
 }
